@@ -373,7 +373,7 @@ class ModuleInliner:
         return False
 
     # -- resolution ----------------------------------------------------------
-    def _resolve(self, call: ast.Call, caller: Def) -> Optional[Tuple[Def, Optional[ast.expr], bool]]:
+    def _resolve(self, call: ast.Call, caller: Def, allow_decorated: bool = False) -> Optional[Tuple[Def, Optional[ast.expr], bool]]:
         """-> (helper def, receiver expression to bind to its first parameter or None, skip_first_param)"""
         f = call.func
         if isinstance(f, ast.Name):
@@ -400,16 +400,18 @@ class ModuleInliner:
             while top.parent is not None:
                 top = top.parent
             kcls = top.cls
-            if kcls is None:
-                return None
             recv = f.value
-            for d in self.new:
+            for d in (self.new if kcls is not None else []):
                 if d.kind == "method" and d.cls is kcls and d.node.name == f.attr:
                     decs = [ast.unparse(x) for x in d.node.decorator_list]
                     first = top.node.args.args[0].arg if top.node.args.args else None
                     is_self = isinstance(recv, ast.Name) and recv.id == first and caller is top or (isinstance(recv, ast.Name) and recv.id == first)
                     is_cls_name = isinstance(recv, ast.Name) and recv.id == kcls.name
                     is_type_self = isinstance(recv, ast.Call) and isinstance(recv.func, ast.Name) and recv.func.id == "type" and len(recv.args) == 1
+                    if allow_decorated and any(x in ("contextmanager", "contextlib.contextmanager") for x in decs):
+                        if is_self:
+                            return d, recv, True
+                        return None
                     if "staticmethod" in decs:
                         if is_self or is_cls_name or is_type_self:
                             return d, None, False
@@ -426,6 +428,19 @@ class ModuleInliner:
                     if is_self:
                         return d, recv, True
                     return None
+            # a new method called on another object (`handle._rekey(x)`): the name identifies it if it is unique among the new methods of the package
+            cands = []
+            for m in (self.pkg.values() or [self]):
+                for d in m.new:
+                    if d.kind == "method" and d.node.name == f.attr:
+                        cands.append((m, d))
+            if len(cands) == 1 and _simple_arg(recv):
+                m, d = cands[0]
+                decs = [ast.unparse(x) for x in d.node.decorator_list]
+                # no known method of that name anywhere (the receiver could be of another type)
+                known_same = any(q.endswith("." + f.attr) for q in self.known)
+                if not decs and not known_same and (m is self or self._foreign_ok(d, m)):
+                    return d, recv, True
         return None
 
     def _owner(self, d: Def) -> "ModuleInliner":
@@ -946,6 +961,85 @@ class ModuleInliner:
         return out
 
     # -- driver ---------------------------------------------------------------------------
+    # -- generator based context managers ------------------------------------------------------------------------
+    def _expand_with(self, st: ast.stmt, caller: Def) -> Optional[List[ast.stmt]]:
+        """`with helper(args) as v: BODY` where the new helper is a @contextmanager generator with a single `yield E` statement:
+        the helper's body with the yield replaced by `v = E; BODY` (an exception in BODY is raised at the yield, i.e. exactly there)."""
+        if not isinstance(st, (ast.With,)) or len(st.items) != 1 or not isinstance(st.items[0].context_expr, ast.Call):
+            return None
+        call = st.items[0].context_expr
+        res = self._resolve(call, caller, allow_decorated=True)
+        if res is None:
+            return None
+        d, recv, skip = res
+        fn = d.node
+        decs = [ast.unparse(x) for x in fn.decorator_list]
+        if d is caller or not decs or any(x not in ("contextmanager", "contextlib.contextmanager") for x in decs):
+            return None
+        a = fn.args
+        if a.vararg or a.kwarg or a.posonlyargs or isinstance(fn, ast.AsyncFunctionDef):
+            return None
+        ys = [n for s2 in fn.body for n in _walk_no_nested(s2) if isinstance(n, (ast.Yield, ast.YieldFrom))]
+        if len(ys) != 1 or not isinstance(ys[0], ast.Yield):
+            return None
+        if any(isinstance(n, ast.Return) and n.value is not None for s2 in fn.body for n in _walk_no_nested(s2)):
+            return None
+        try:
+            pre, body = self._prepare(d, call, caller, recv, skip)
+        except Bail as e:
+            self.log.append(f"{caller.qual} :: {d.qual} (context manager) not expanded: {e}")
+            return None
+        target = st.items[0].optional_vars
+        user_body = st.body
+        done = [False]
+
+        def place(stmts, in_loop=False):
+            out = []
+            for s2 in stmts:
+                if isinstance(s2, ast.Expr) and isinstance(s2.value, ast.Yield):
+                    if in_loop:
+                        raise Bail("yield inside a loop")
+                    if target is not None:
+                        v = s2.value.value if s2.value.value is not None else ast.copy_location(ast.Constant(value=None), s2)
+                        out.append(ast.copy_location(ast.Assign(targets=[copy.deepcopy(target)], value=v), s2))
+                    elif s2.value.value is not None and any(isinstance(n, ast.Call) for n in ast.walk(s2.value.value)):
+                        out.append(ast.copy_location(ast.Expr(value=s2.value.value), s2))
+                    out.extend(user_body)
+                    done[0] = True
+                    continue
+                if isinstance(s2, (ast.FunctionDef, ast.AsyncFunctionDef, ast.ClassDef)):
+                    out.append(s2)
+                    continue
+                loop = isinstance(s2, (ast.For, ast.While, ast.AsyncFor))
+                for fld in ("body", "orelse", "finalbody"):
+                    sub = getattr(s2, fld, None)
+                    if isinstance(sub, list) and sub and isinstance(sub[0], ast.stmt):
+                        setattr(s2, fld, place(sub, in_loop or loop))
+                for h in getattr(s2, "handlers", []) or []:
+                    h.body = place(h.body, in_loop)
+                out.append(s2)
+            return out
+        try:
+            new_body = place(body)
+        except Bail as e:
+            self.log.append(f"{caller.qual} :: {d.qual} (context manager) not expanded: {e}")
+            return None
+        if not done[0]:
+            return None
+        # a bare `return` of the helper would leave the caller: only fall-through helpers are expanded
+        if any(isinstance(n, ast.Return) for s2 in body for n in _walk_no_nested(s2)):
+            return None
+        new = pre + new_body
+        for s2 in new:
+            ast.fix_missing_locations(s2)
+        owner = self._owner(d)
+        owner.expanded[id(d)] = owner.expanded.get(id(d), 0) + 1
+        if owner is not self:
+            self._apply_pending_imports(d)
+            self.expanded[id(d)] = self.expanded.get(id(d), 0) + 1
+        self.log.append(f"{caller.qual} <- {d.qual} (with)")
+        return new
+
     # -- threading of hoisted boolean results ------------------------------------------------
     def _thread(self, stmts: List[ast.stmt], tname: str, on_true: List[ast.stmt], on_false: List[ast.stmt], budget: List[int]) -> bool:
         """`stmts` end (on every path) in `tname = True/False`; replace each such assignment by a copy of the code the following
@@ -1018,6 +1112,8 @@ class ModuleInliner:
                 out.append(st)
                 continue
             new = self._expand_stmt(st, caller)
+            if new is None:
+                new = self._expand_with(st, caller)
             if new is not None and isinstance(st, ast.Assign) and isinstance(st.targets[0], ast.Name) and st.targets[0].id.startswith("_inl_t") \
                     and idx + 1 < len(stmts) and isinstance(stmts[idx + 1], ast.If):
                 thr = self._try_thread(new, st.targets[0].id, stmts[idx + 1])
